@@ -114,7 +114,11 @@ func main() {
 		r := cr.Fork(fmt.Sprint("c", i))
 		w := good[i%len(good)]
 		dir := filepath.Join(tmp, fmt.Sprintf("case%d", i))
+		tc := time.Now()
 		outs := runCase(walletBin, dir, w, r, i)
+		if os.Getenv("VERIF_DEBUG") != "" && time.Since(tc) > 3*time.Second {
+			fmt.Fprintf(os.Stderr, "case %d took %v\n", i, time.Since(tc))
+		}
 		os.RemoveAll(dir)
 		mu.Lock()
 		defer mu.Unlock()
@@ -216,6 +220,9 @@ func runStep(bin, dir string, w *wcfg, st *state, q *request, step int) *outcome
 		wd = 15 * time.Second
 	}
 	pr := runWallet(bin, dir, args, wd)
+	if os.Getenv("VERIF_DEBUG") != "" && pr.wall > time.Second {
+		fmt.Fprintf(os.Stderr, "wallet run took %v: %v\n", pr.wall, args)
+	}
 	o.inc("wallet_runs")
 	fam := "send"
 	switch {
